@@ -19,6 +19,13 @@ if TYPE_CHECKING:
     from funtracks.data_model.solution_tracks import SolutionTracks
 
 
+def _is_no_parent(value) -> bool:
+    """Cells without a parent hold -1, an empty string or a missing value."""
+    if isinstance(value, str):
+        return value in ("", "-1")
+    return bool(pd.isna(value)) or value == -1
+
+
 def _ensure_integer_ids(df: pd.DataFrame) -> pd.DataFrame:
     """Ensure that the 'id' column in the dataframe contains integer values.
 
@@ -28,12 +35,25 @@ def _ensure_integer_ids(df: pd.DataFrame) -> pd.DataFrame:
     Returns:
         pd.DataFrame: The same dataframe with the ids remapped to be unique integers.
             Parent id column is also remapped.
+
+    Raises:
+        ValueError: if a parent id is neither the id of a row nor one of the
+            "no parent" encodings (-1, empty string, missing value)
     """
     if not pd.api.types.is_integer_dtype(df["id"]):
         unique_ids = df["id"].unique()
         id_mapping = {
             original_id: new_id for new_id, original_id in enumerate(unique_ids, start=1)
         }
+        unknown_parents = [
+            parent_id
+            for parent_id in df["parent_id"]
+            if parent_id not in id_mapping and not _is_no_parent(parent_id)
+        ]
+        if unknown_parents:
+            raise ValueError(
+                f"Some parent ids do not refer to any node id: {unknown_parents}"
+            )
         df["id"] = df["id"].map(id_mapping)
         df["parent_id"] = df["parent_id"].map(id_mapping).astype(pd.Int64Dtype())
 
